@@ -1027,3 +1027,153 @@ func ruleGapOracleIsTheChain(c *report.Ctx) {
 		c.Fail("gap-oracle", "no call hands an oracle to the keystore (anchor lost)", "")
 	}
 }
+
+// ruleSentenceJudgedByWords (C13): whether a mnemonic is accepted depends on its words, not on the bytes between them.
+func ruleSentenceJudgedByWords(c *report.Ctx) {
+	p := c.P
+	c.Rule("sentence-judged-by-words", "in the keystore functions that tokenise a mnemonic sentence (their string parameter reaches strings.Fields) the raw sentence is only tokenised, handed on, or hashed: its length is not measured and it is not compared, indexed or sliced — acceptance must depend on the word sequence, so a valid sentence with extra blanks, line breaks or padding is not rejected by a byte-length or prefix test", 3)
+	fields := p.Fn("strings", "", "Fields")
+	if fields == nil {
+		c.Lost("strings.Fields")
+		return
+	}
+	n := 0
+	for _, f := range p.ModFuncs {
+		if pk := an.FuncPkg(f); pk == nil || pk.Path() != pkgKeystore || f.Parent() != nil {
+			continue
+		}
+		for _, par := range f.Params {
+			if b, ok := par.Type().Underlying().(*types.Basic); !ok || b.Kind() != types.String {
+				continue
+			}
+			// does it reach strings.Fields (directly or through strings.TrimSpace / ToLower …)?
+			reaches := false
+			var bad []ssa.Instruction
+			var why []string
+			seen := map[ssa.Value]bool{}
+			var visit func(v ssa.Value, d int)
+			visit = func(v ssa.Value, d int) {
+				if seen[v] || d > 4 || v.Referrers() == nil {
+					return
+				}
+				seen[v] = true
+				for _, r := range *v.Referrers() {
+					switch x := r.(type) {
+					case *ssa.Call:
+						if b, ok := x.Call.Value.(*ssa.Builtin); ok {
+							if b.Name() == "len" {
+								bad = append(bad, x)
+								why = append(why, "len(sentence)")
+							}
+							continue
+						}
+						if cal := x.Call.StaticCallee(); cal != nil {
+							if cal == fields {
+								reaches = true
+								continue
+							}
+							if strings.HasPrefix(an.CanonKeyOf(cal), "strings.Trim") {
+								visit(x, d+1)
+							}
+						}
+					case *ssa.BinOp:
+						bad = append(bad, x)
+						why = append(why, "comparison of the raw sentence")
+					case *ssa.Slice:
+						bad = append(bad, x)
+						why = append(why, "slice of the raw sentence")
+					case *ssa.Index, *ssa.Lookup:
+						bad = append(bad, r)
+						why = append(why, "byte of the raw sentence")
+					case *ssa.Range:
+						bad = append(bad, x)
+						why = append(why, "loop over the raw sentence's bytes")
+					case *ssa.Phi:
+						visit(x, d+1)
+					}
+				}
+			}
+			visit(par, 0)
+			if !reaches {
+				continue
+			}
+			n++
+			key := sk(f) + ":raw(" + par.Name() + ")"
+			if len(bad) == 0 {
+				c.OK(key, "tokenised / handed on only", p.Pos(f.Pos()))
+			} else {
+				c.Fail(key, "the raw mnemonic sentence is judged by its bytes ("+strings.Join(why, ", ")+") before or beside tokenisation: a valid word sequence with additional white space (one word per line, CRLF, padding) is rejected by one decoder and accepted by the others, and its import fails", posOf(c, bad[0]))
+			}
+		}
+	}
+	if n == 0 {
+		c.Fail("mnemonic-tokenisers", "no keystore function tokenises a sentence with strings.Fields any more (anchor lost)", "")
+	}
+}
+
+// ruleStakingPeriodFromRequest (C16): the frozen period written into a staking script is the one that was asked for.
+func ruleStakingPeriodFromRequest(c *report.Ctx) {
+	p := c.P
+	c.Rule("staking-period-from-request", "inside the wallet package the requested staking outputs reach the script builder untouched: constructStakingTxOut hands PayToStakingAddrScript the FrozenPeriod field of an element of its own outputs parameter, and every caller passes on the outputs slice it was given (a parameter), not a rewritten copy — an out-of-range period must be refused by the builder, not silently replaced by another lock that the script then reads back with", 2)
+	pay := p.Fn(pkgTxscript, "", "PayToStakingAddrScript")
+	cst := fn(c, pkgWallet, "", "constructStakingTxOut")
+	sto := p.Type(pkgWallet, "StakingTxOut")
+	if pay == nil || cst == nil || sto == nil {
+		if pay == nil {
+			c.Lost("txscript.PayToStakingAddrScript")
+		}
+		return
+	}
+	// (2) the builder reads the field of its parameter's element
+	for i, s := range calls(cst, pay) {
+		cc := an.CallOf(s)
+		key := siteKey(cst, "PayToStakingAddrScript-period", i+1)
+		ok := false
+		if len(cc.Args) >= 2 {
+			if ld, isLd := stripConv(cc.Args[1]).(*ssa.UnOp); isLd && isFieldLoad(ld, sto, "FrozenPeriod") {
+				// base: *(&outputs[i]) with outputs the parameter
+				if fa, isFA := ld.X.(*ssa.FieldAddr); isFA {
+					base := fa.X
+					for k := 0; k < 4; k++ {
+						switch b := base.(type) {
+						case *ssa.UnOp:
+							base = b.X
+							continue
+						case *ssa.IndexAddr:
+							base = b.X
+							continue
+						}
+						break
+					}
+					if _, isPar := base.(*ssa.Parameter); isPar {
+						ok = true
+					}
+				}
+			}
+		}
+		if ok {
+			c.OK(key, "the FrozenPeriod field of an element of the outputs parameter", posOf(c, s))
+		} else {
+			c.Fail(key, "the frozen period handed to the script builder is not the FrozenPeriod field of the requested output: the script carries a lock other than the one asked for", posOf(c, s))
+		}
+	}
+	// (1) callers forward their own parameter
+	n := 0
+	for _, f := range p.ModFuncs {
+		if pk := an.FuncPkg(f); pk == nil || pk.Path() != pkgWallet {
+			continue
+		}
+		for i, s := range calls(f, cst) {
+			n++
+			key := siteKey(f, "constructStakingTxOut-outputs", i+1)
+			if _, isPar := an.ResolveCell(an.CallOf(s).Args[0]).(*ssa.Parameter); isPar {
+				c.OK(key, "the outputs slice the function was given", posOf(c, s))
+			} else {
+				c.Fail(key, "the staking outputs are rewritten between the request and the script builder ("+p.Desc(an.CallOf(s).Args[0])+"): a request whose frozen period is out of range or missing is answered with a transaction carrying another lock instead of being refused (CreateStakingTransaction sends the very transaction the estimate built)", posOf(c, s))
+			}
+		}
+	}
+	if n == 0 {
+		c.Fail("constructStakingTxOut", "no caller of the staking output builder found (anchor lost)", "")
+	}
+}
